@@ -80,6 +80,8 @@ TOTAL = [
     r"^core::num::<impl \w+>::(checked_\w+|saturating_\w+|wrapping_\w+|overflowing_\w+|from_str|min|max|count_\w+|leading_\w+|trailing_\w+|to_\we_bytes|"
     r"from_\we_bytes|is_power_of_two|swap_bytes|rotate_\w+|signum|is_positive|is_negative|abs_diff|unsigned_abs)$",
     r"^core::char::",
+    r"^core::num::<impl u8>::(is_ascii\w*|to_ascii_\w+|eq_ignore_ascii_case|as_ascii|is_utf8_char_boundary)$",
+    r"^core::char::methods::<impl char>::\w+$",
     r"^alloc::string::String::(new|from_utf8|from_utf8_lossy|push|push_str|as_str|as_bytes|len|is_empty|clear|pop|into_bytes|into_boxed_str|"
     r"shrink_to_fit|as_mut_str|capacity|retain)$",
     r"^alloc::vec::Vec::<T(, A)?>::(new|push|pop|len|is_empty|clear|as_slice|as_mut_slice|iter|extend_from_slice|append|last|first|truncate|retain|"
